@@ -14,7 +14,6 @@ and on a YAML token soup (total)."""
 import concurrent.futures
 import hashlib
 import json
-import os
 import sys
 import time
 from fractions import Fraction
@@ -25,7 +24,6 @@ import c20_util as U
 from vlib import Check, run_tlc, tlc_must_pass, run_cases
 
 PROP = "C20"
-FLIP = os.environ.get("C20_DEBUG_FLIP")      # binding demonstration only: corrupt one expectation
 
 # (cfg suffix, label, TLC workers, simulate, depth)
 PLAN = {
@@ -50,6 +48,17 @@ PLAN = {
     ],
 }
 CHUNK = 60000
+# vacuity: every builtin must have seen each of these expectation classes
+NEED = {"parseInt": ["ok", "err-digit", "err-empty", "finite", "err-overflow"],
+        "parseOctal": ["ok", "err-digit", "err-empty", "finite", "err-overflow"],
+        "parseHex": ["ok", "err-digit", "err-empty", "finite", "err-overflow"],
+        "parseJson": ["accept", "reject", "open"], "parseYaml": ["accept", "total-only"],
+        "base64": ["ok", "err"], "base64str": ["ok", "err"], "base64DecodeBytes": ["ok", "err", "open"],
+        "base64Decode": ["ok", "err", "open"], "encodeUTF8": ["ok"], "decodeUTF8": ["ok", "err"],
+        "escapeStringJson": ["text"], "escapeStringPython": ["text"], "escapeStringBash": ["text"],
+        "escapeStringDollars": ["text"], "escapeStringXML": ["text"],
+        "md5": ["table"], "sha1": ["table"], "sha256": ["table"], "sha512": ["table"], "sha3": ["table"]}
+
 
 
 def _h(*parts):
@@ -64,7 +73,6 @@ class Judge:
         self.observed = {}     # fn -> observed class -> count
         self.replayed = 0
         self.samples = {}
-        self.flipped = False
         self.viol = {}         # sig (without message text) -> [count, first example]
 
     def bump(self, table, fn, cls):
@@ -140,8 +148,6 @@ class Judge:
             self.bump(self.classes, fn, "table")
             got = r.get("ok")
             want = exp
-            if FLIP == "digest" and not self.flipped:
-                self.flipped, want = True, "0" * len(exp)
             if got != want:
                 self.bad("digest", fn, "wrong-digest", f"std.{fn}({shown}) = {got!r}, known answer {want}", case, want)
         else:
@@ -183,8 +189,6 @@ class Judge:
             raise vlib.ToolError(f"cannot read manifested result of {case['src'][:200]}: {r['ok'][:200]!r}: {e}")
         want = U.spec_value(c["_leaf"] if deep else d["v"])
         want = U.norm(want)
-        if FLIP == "json" and not self.flipped and isinstance(want, float):
-            self.flipped, want = True, want + 1
         if not U.same_value(got, want):
             cls = "wrong-value" if role == "main" else "yaml-differs-from-json"
             self.bad(kind, called, cls, f"std.{called}({shown}) = {json.dumps(got)[:200]}, specification: "
@@ -214,8 +218,6 @@ class Judge:
         g = Fraction(float(got))      # the double the printed number denotes
         if exp["r"] == "ok":
             want = Fraction(exp["s"] * exp["m"]) * Fraction(2) ** exp["e"]
-            if FLIP == "radix" and not self.flipped and want > 5:
-                self.flipped, want = True, want + 1
             if g != want:
                 self.bad("radix", fn, "wrong-value", f"std.{fn}({shown}) = {r['ok'][:60]}; specification: {want}",
                          case, str(want))
@@ -259,8 +261,6 @@ class Judge:
         else:
             got = U.loads_manifest(r["ok"])
         want = list(exp["v"])
-        if FLIP == "codec" and not self.flipped and len(want) > 2:
-            self.flipped, want = True, want[:-1] + [want[-1] ^ 1]
         if got != want:
             self.bad("codec", real, "wrong-result", f"std.{real}({arg}) = {str(got)[:160]}; specification: {str(want)[:160]}",
                      case, want)
@@ -270,8 +270,6 @@ class Judge:
         self.bump(self.classes, fn, "text")
         got = U.cps_of(r)
         want = list(exp["text"])
-        if FLIP == "escape" and not self.flipped and want:
-            self.flipped, want = True, want + [33]
         if got is None:
             self.bad("escape", fn, "not-a-string", f"std.{fn}({shown}) -> {json.dumps(r)[:160]}", case, U.S(want))
             return
@@ -403,21 +401,10 @@ def run(tier, seed):
             judge.bad("digest-aux", fn, "wrong-digest", f"`{hc['src'][:200]}` = {res_.get('ok')!r}; hashlib: {want}", hc, want)
 
     # vacuity: every builtin saw both outcomes where both exist
-    need = {"parseInt": ["ok", "err-digit", "err-empty", "finite", "err-overflow"],
-            "parseOctal": ["ok", "err-digit", "err-empty", "finite", "err-overflow"],
-            "parseHex": ["ok", "err-digit", "err-empty", "finite", "err-overflow"],
-            "parseJson": ["accept", "reject", "open"], "parseYaml": ["accept", "total-only"],
-            "base64": ["ok", "err"], "base64str": ["ok", "err"], "base64DecodeBytes": ["ok", "err", "open"],
-            "base64Decode": ["ok", "err", "open"], "encodeUTF8": ["ok"], "decodeUTF8": ["ok", "err"],
-            "escapeStringJson": ["text"], "escapeStringPython": ["text"], "escapeStringBash": ["text"],
-            "escapeStringDollars": ["text"], "escapeStringXML": ["text"],
-            "md5": ["table"], "sha1": ["table"], "sha256": ["table"], "sha512": ["table"], "sha3": ["table"]}
-    for fn, classes in need.items():
+    for fn, classes in NEED.items():
         for cl in classes:
             if judge.classes.get(fn, {}).get(cl, 0) == 0:
                 raise vlib.ToolError(f"vacuous universe: no case of class {cl} for {fn}")
-    if FLIP and not judge.flipped:
-        raise vlib.ToolError("C20_DEBUG_FLIP set but nothing flipped")
     for u in sorted(judge.samples):
         chk.sample(judge.samples[u][1], limit=12)
     chk.traces_validated = judge.replayed
